@@ -10,16 +10,21 @@ pub mod shapes_a {
     pub mod ffi {
         use diplomat_runtime::{DiplomatStr, DiplomatWrite};
 
+        /// Documentation links into a crate family (`vsim`, `vsim_core`, `vsim_core_util`): the docs-URL configurations of
+        /// proc-sim give base URLs for some members of the family and not for others.
+        #[diplomat::rust_link(vsim_core_util::Mode, Enum)]
         pub enum Mode {
             Fast,
             Slow,
         }
 
+        #[diplomat::rust_link(vsim_core::Settings, Struct)]
         pub struct Settings {
             pub level: u8,
             pub scale: f32,
         }
 
+        #[diplomat::rust_link(vsim::Verdict, Enum)]
         #[diplomat::attr(auto, error)]
         pub enum Verdict {
             Yes = 1,
@@ -27,6 +32,8 @@ pub mod shapes_a {
         }
 
         impl Mode {
+            #[diplomat::rust_link(vsim_core_util::Mode::parse, FnInEnum)]
+            #[diplomat::rust_link(othercrate::parse_mode, Fn, compact)]
             pub fn parse(code: u8) -> Mode {
                 if code == 0 {
                     Mode::Fast
@@ -34,6 +41,7 @@ pub mod shapes_a {
                     Mode::Slow
                 }
             }
+            #[diplomat::rust_link(vsim_core_util_extra::fastest, Fn)]
             pub fn fastest() -> Mode {
                 Mode::Fast
             }
